@@ -256,6 +256,214 @@ def same_body(fn, cls, tree, ref_src, what):
         raise Unsupported("%s changed: %s" % (what, "; ".join(ast.unparse(s) for s in body)[:300]))
     return al
 
+# ----------------------------------------------------------------------------- round 5: more shapes
+def _format_pieces(call, al, canon):
+    """`'<template>'.format(a, b, ...)` -> list of Lean `Piece`s; arguments are the reference locals of `canon`"""
+    import string as _string
+    if not (isinstance(call, ast.Call) and isinstance(call.func, ast.Attribute) and call.func.attr == "format"
+            and isinstance(call.func.value, ast.Constant) and isinstance(call.func.value.value, str)
+            and not call.keywords):
+        raise Unsupported("rename template: not a literal str.format call: " + ast.unparse(call)[:80])
+    args = []
+    for a in call.args:
+        if not isinstance(a, ast.Name):
+            raise Unsupported("rename template: argument is not a local name: " + ast.unparse(a))
+        ref = al.ab.get(a.id)
+        if ref not in canon:
+            raise Unsupported("rename template: unknown argument " + a.id)
+        args.append(canon[ref])
+    pieces, auto = [], 0
+    for text, field, spec, conv in _string.Formatter().parse(call.func.value.value):
+        if text:
+            pieces.append("Piece.lit %s" % lean_chars(text))
+        if field is None:
+            continue
+        if spec or conv:
+            raise Unsupported("rename template: format spec / conversion in %r" % call.func.value.value)
+        if field == "":
+            idx = auto
+            auto += 1
+        elif field.isdigit():
+            idx = int(field)
+        else:
+            raise Unsupported("rename template: named field %r" % field)
+        if idx >= len(args):
+            raise Unsupported("rename template: field index out of range")
+        pieces.append("Piece.arg %d" % args[idx])
+    return "[" + ", ".join(pieces) + "]"
+
+
+def _rename_templates(fn):
+    """the whole body of `generate_rename_path` has been pinned (same_body) – here the two templates are READ"""
+    ref_locals = {"root", "ext", "creation_time", "creation_datetime", "date", "renamed_path", "counter"}
+    ref = ast.parse("def f(root, ext, creation_time):\n"
+                    "    creation_datetime = datetime.datetime.fromtimestamp(creation_time)\n"
+                    "    date = FileDateFormatter(creation_datetime)\n"
+                    "    renamed_path = 0\n"
+                    "    counter = 1\n"
+                    "    while os.path.exists(renamed_path):\n"
+                    "        counter += 1\n"
+                    "        renamed_path = 0\n"
+                    "    return renamed_path\n").body[0]
+    body = [s for s in fn.body if not (isinstance(s, ast.Expr) and isinstance(s.value, ast.Constant))]
+    al = Alpha(_local_names(fn), ref_locals)
+    if len(body) != len(ref.body) or not al.eq(fn.args, ref.args):
+        raise Unsupported("generate_rename_path: shape")
+    for i in (0, 1, 3):
+        if not al.eq(body[i], ref.body[i]):
+            raise Unsupported("generate_rename_path: statement %d" % i)
+    w, rw = body[4], ref.body[4]
+    if not (isinstance(w, ast.While) and al.eq(w.test, rw.test) and len(w.body) == 2
+            and al.eq(w.body[0], rw.body[0]) and not w.orelse):
+        raise Unsupported("generate_rename_path: loop shape")
+    first, loop = body[2], w.body[1]
+    for s_ in (first, loop):
+        if not (isinstance(s_, ast.Assign) and len(s_.targets) == 1 and al.eq(s_.targets[0], ref.body[2].targets[0])):
+            raise Unsupported("generate_rename_path: template assignment")
+    if not al.eq(body[5], ref.body[5]):
+        raise Unsupported("generate_rename_path: return")
+    canon = {"root": 0, "date": 1, "ext": 2, "counter": 3}
+    out = "/-- `renamed_path = '{}.{}{}'.format(root, date, ext)`; arguments numbered root=0, date=1, ext=2, counter=3 -/\n"
+    out += "def renameFirstTemplate : List Piece := %s\n" % _format_pieces(first.value, al, canon)
+    out += "/-- the template inside the `while os.path.exists(renamed_path)` loop -/\n"
+    out += "def renameLoopTemplate : List Piece := %s\n" % _format_pieces(loop.value, al, canon)
+    # the increment precedes the template in the loop body: the first counter printed is renameFirstCounter + 1
+    out += "def renameCounterStep : Nat := 1\n\n"
+    return out
+
+
+def _compress_prims(comp, tree):
+    """the primitive sequence of each compress function, READ from its `with` nest: which objects are opened in
+    which order (the source in which mode), what transfers the data (under which member name), and the exits"""
+    rows = []
+    for fname, kind in (("copy_compress", "copy"), ("add_compress", "add"), ("write_compress", "write")):
+        f = norm_func(find_func(comp, fname), comp, tree)
+        al = Alpha(_local_names(f), {"path_in", "path_out", "opener", "kwargs", "f_in", "f_out", "f_comp"})
+        if not al.eq(f.args, ast.parse("def f(path_in, path_out, opener, **kwargs): pass").body[0].args):
+            raise Unsupported(fname + ": parameters changed")
+        body = [s for s in f.body if not (isinstance(s, ast.Expr) and isinstance(s.value, ast.Constant))]
+        prims, closes = [], []
+        while len(body) == 1 and isinstance(body[0], ast.With) and len(body[0].items) == 1:
+            item = body[0].items[0]
+            ce = item.context_expr
+            if al.eq(ce, _ref("opener(path_out, **kwargs)")[0].value):
+                prims.append("CPrim.openArchive")
+                closes.append("CPrim.closeArchive")
+            elif (isinstance(ce, ast.Call) and isinstance(ce.func, ast.Name) and ce.func.id == "open" and len(ce.args) == 2
+                  and not ce.keywords and al.eq(ce.args[0], _ref("path_in")[0].value)
+                  and isinstance(ce.args[1], ast.Constant) and isinstance(ce.args[1].value, str)
+                  and set(ce.args[1].value) <= set("rbt")):
+                prims.append("CPrim.openSource %s" % ("true" if "b" in ce.args[1].value else "false"))
+                closes.append("CPrim.closeSource")
+            else:
+                raise Unsupported(fname + ": unexpected context manager " + ast.unparse(ce))
+            if item.optional_vars is not None and not isinstance(item.optional_vars, ast.Name):
+                raise Unsupported(fname + ": with-target")
+            if item.optional_vars is not None:
+                al.eq(item.optional_vars, ast.Name(id={"CPrim.openArchive": "f_out" if kind == "copy" else "f_comp"}.get(
+                    prims[-1], "f_in"), ctx=ast.Store()))
+            body = body[0].body
+        if len(body) != 1 or not isinstance(body[0], ast.Expr):
+            raise Unsupported(fname + ": body of the with nest")
+        tr = body[0].value
+        if kind == "copy" and al.eq(tr, _ref("shutil.copyfileobj(f_in, f_out)")[0].value):
+            prims.append("CPrim.transfer false")
+        elif kind != "copy" and al.eq(tr, _ref("f_comp.%s(path_in, os.path.basename(path_in))" % kind)[0].value):
+            prims.append("CPrim.transfer true")
+        elif kind != "copy" and al.eq(tr, _ref("f_comp.%s(path_in)" % kind)[0].value):
+            prims.append("CPrim.transfer false")
+        else:
+            raise Unsupported(fname + ": unexpected transfer " + ast.unparse(tr))
+        rows.append((kind, prims + closes[::-1]))
+    out = "/-- primitive sequence of `copy_compress` / `add_compress` / `write_compress` (from the `with` nests) -/\n"
+    out += "def compressPrims : CompKind → List CPrim\n"
+    for kind, prims in rows:
+        out += "  | CompKind.%s => [%s]\n" % (kind, ", ".join(prims))
+    return out + "\n"
+
+
+def _bool_kernel(test, al, atoms):
+    """a test built with or/and/not over recognised atoms -> Lean Bool expression"""
+    if isinstance(test, ast.BoolOp):
+        op = " || " if isinstance(test.op, ast.Or) else " && "
+        return "(" + op.join(_bool_kernel(v, al, atoms) for v in test.values) + ")"
+    if isinstance(test, ast.UnaryOp) and isinstance(test.op, ast.Not):
+        for name, tpl in atoms:
+            if al.eq(test, tpl):
+                return name
+        return "(!" + _bool_kernel(test.operand, al, atoms) + ")"
+    for name, tpl in atoms:
+        if al.eq(test, tpl):
+            return name
+    raise Unsupported("_reopen_if_needed: unknown test atom " + ast.unparse(test))
+
+
+def _reopen_shape(cls, tree):
+    """`_reopen_if_needed`: guard, stat with the FileNotFoundError handler, the re-open test (as a Bool kernel over
+    missing / dev differs / ino differs) and the ORDER of the re-open branch; `_create_file` records (dev, ino)"""
+    f = norm_func(find_func(cls, "_reopen_if_needed"), cls, tree)
+    body = [s for s in f.body if not (isinstance(s, ast.Expr) and isinstance(s.value, ast.Constant))]
+    al = Alpha(_local_names(f), {"filepath", "result"})
+    if len(body) != 4:
+        raise Unsupported("_reopen_if_needed: %d statements" % len(body))
+    g = body[0]
+    guards = [_ref("not self._file")[0].value, _ref("self._file is None")[0].value]
+    if not (isinstance(g, ast.If) and any(al.eq(g.test, t) for t in guards) and len(g.body) == 1
+            and isinstance(g.body[0], ast.Return) and g.body[0].value is None and not g.orelse):
+        raise Unsupported("_reopen_if_needed: guard changed: " + ast.unparse(g)[:80])
+    if not al.eq(body[1], _ref("filepath = self._file_path")[0]):
+        raise Unsupported("_reopen_if_needed: path binding changed")
+    if not al.eq(body[2], _ref("try:\n    result = os.stat(filepath)\nexcept FileNotFoundError:\n    result = None\n")[0]):
+        raise Unsupported("_reopen_if_needed: stat block changed: " + ast.unparse(body[2])[:120])
+    t = body[3]
+    if not (isinstance(t, ast.If) and not t.orelse):
+        raise Unsupported("_reopen_if_needed: last statement is not the re-open test")
+    atoms = [("missing", _ref("not result")[0].value), ("missing", _ref("result is None")[0].value),
+             ("devDiff", _ref("result[ST_DEV] != self._file_dev")[0].value),
+             ("inoDiff", _ref("result[ST_INO] != self._file_ino")[0].value),
+             ("devDiff", _ref("self._file_dev != result[ST_DEV]")[0].value),
+             ("inoDiff", _ref("self._file_ino != result[ST_INO]")[0].value)]
+    kernel = _bool_kernel(t.test, al, atoms)
+    steps = {"close": _ref("self._close_file()")[0], "mkdirs": _ref("self._create_dirs(filepath)")[0],
+             "create": _ref("self._create_file(filepath)")[0]}
+    order = []
+    for s_ in t.body:
+        hit = [k for k, tpl in steps.items() if al.eq(s_, tpl)]
+        if not hit:
+            raise Unsupported("_reopen_if_needed: unexpected statement in the re-open branch: " + ast.unparse(s_))
+        order.append(hit[0])
+    same_body(find_func(cls, "_create_file"), cls, tree,
+              "def f(self, path):\n"
+              "    self._file = open(path, **self._kwargs)\n"
+              "    self._file_path = path\n"
+              "    if self._watch:\n"
+              "        fileno = self._file.fileno()\n"
+              "        result = os.fstat(fileno)\n"
+              "        self._file_dev = result[ST_DEV]\n"
+              "        self._file_ino = result[ST_INO]\n", "_create_file")
+    out = "\n/-- the test of `_reopen_if_needed` (file missing, device differs, inode differs) -/\n"
+    out += "def reopenNeeded (missing devDiff inoDiff : Bool) : Bool := %s\n" % kernel
+    out += "/-- the re-open branch, in source order -/\n"
+    out += "def reopenOrder : List RStep := [%s]\n" % ", ".join("RStep." + k for k in order)
+    out += "/-- `_create_file` records `os.fstat(fileno)[ST_DEV/ST_INO]` when `watch` is set -/\n"
+    out += "def createRecordsIdentity : Bool := true\n"
+    return out
+
+
+def _stop_shape(cls, tree):
+    f = norm_func(find_func(cls, "stop"), cls, tree)
+    body = [s for s in f.body if not (isinstance(s, ast.Expr) and isinstance(s.value, ast.Constant))]
+    al = Alpha(_local_names(f), set())
+    order = []
+    for s_ in body:
+        if al.eq(s_, _ref("if self._watch:\n    self._reopen_if_needed()\n")[0]):
+            order.append("reopen")
+        elif al.eq(s_, _ref("self._terminate_file(is_rotating=False)")[0]):
+            order.append("terminate")
+        else:
+            raise Unsupported("FileSink.stop: unexpected statement " + ast.unparse(s_)[:80])
+    return "def stopOrder : List SStep := [%s]\n" % ", ".join("SStep." + k for k in order)
+
 
 def generate():
     errors = []
@@ -335,6 +543,7 @@ def generate():
                   "        with opener(path_out, **kwargs) as f_out:\n"
                   "            shutil.copyfileobj(f_in, f_out)\n", "copy_compress")
         body += "/-- tar/zip members are stored under `os.path.basename(path_in)` -/\ndef memberIsBasename : Bool := true\n\n"
+        body += _compress_prims(comp, tree)
 
         # ---------------------------------------------------------------- Compression.compression order
         f = norm_func(find_func(comp, "compression"), comp, tree)
@@ -377,6 +586,9 @@ def generate():
                   "    return renamed_path\n", "generate_rename_path")
         body += "/-- first counter value used by `generate_rename_path` (1 = name without counter) -/\n"
         body += "def renameFirstCounter : Nat := 1\n\n"
+        # the two name templates of `generate_rename_path`, read from the format strings themselves: pieces of
+        # literal text and arguments, the arguments numbered canonically root=0, date=1, ext=2, counter=3
+        body += _rename_templates(find_func(tree, "generate_rename_path"))
 
         # ---------------------------------------------------------------- FileSink defaults and order
         cls = find_class(tree, "FileSink")
@@ -446,6 +658,8 @@ def generate():
         if calls != want:
             raise Unsupported("FileSink.write call order changed: %r" % calls)
         body += "def writeOrder : List WStep := [WStep.lazyCreate, WStep.reopen, WStep.rotationTest, WStep.terminate, WStep.writeMessage]\n"
+        body += _reopen_shape(cls, tree)
+        body += _stop_shape(cls, tree)
     except (Unsupported, SyntaxError, KeyError, AttributeError, IndexError) as e:
         errors.append("%s: %s" % (type(e).__name__, e))
     body += "\nend FileSink.Gen\n"
